@@ -257,13 +257,14 @@ def leastIdx (bound : Nat) (p : Nat → Bool) : Option Nat :=
 /-! ### `fixed_length_slope` (`subgrid_rivslp(direction="both")`) -/
 
 /-- first `while`: move downstream while the cell lies less than `length/2` below the outlet pixel;
-stop at a pit or on a cell that is masked out (`mask[idx0] == False`, the *current* cell) -/
+stop at a pit, at a cell without downstream cell (start cell outside the network: `idx_ds == mv`) or on a
+cell that is masked out (`mask[idx0] == False`, the *current* cell) -/
 def flsDown (ds : Array Nat) (distnc : Array Int) (mask : Option (Array Bool)) (x0 : Int) :
     Nat → Nat → Option Nat
   | 0, _ => none
   | fuel+1, idx =>
     if distnc[idx]! > x0 then
-      if ds[idx]! = idx ∨ maskAt mask idx = false then some idx
+      if ds[idx]! = idx ∨ ds[idx]! = ds.size ∨ maskAt mask idx = false then some idx
       else flsDown ds distnc mask x0 fuel ds[idx]!
     else some idx
 
@@ -294,7 +295,7 @@ def fixedLengthSlope (ds usMain : Array Nat) (outs : List Nat) (elevtn distnc : 
 def fixedLengthCellsSpec (ds usMain : Array Nat) (distnc : Array Int) (half : Int)
     (mask : Option (Array Bool)) (s : Nat) : Option (List Nat) :=
   match leastIdx ds.size (fun j => !(decide (distnc[iterA ds j s]! > distnc[s]! - half)) ||
-      ds[iterA ds j s]! == iterA ds j s || !(maskAt mask (iterA ds j s))) with
+      ds[iterA ds j s]! == iterA ds j s || ds[iterA ds j s]! == ds.size || !(maskAt mask (iterA ds j s))) with
   | none => none
   | some kd =>
     let d := iterA ds kd s
